@@ -256,6 +256,43 @@ def range_sig(fl, op):
     return frozenset(out)
 
 
+def get_announces_own_hash(ctx, F, b):
+    """The hash a fetch announces is computed from the bytes of the handle it streams: every value that can reach the `hash`
+    field of the Content reply is `Hasher::finalize()` of a hasher that was fed from the opened file - not a remembered digest
+    (a cache keyed by path and stat data describes SOME version of the path; a concurrent commit of the same length within the
+    same second makes it another one than the bytes sent)."""
+    wb = work_body(F, 'serve::handle_get', ['blake3::Hasher::finalize']) or b
+    fl = flow_of(wb)
+    sites = []
+    for bi in fl.cfg.reachable():
+        for st in wb.blocks[bi]['stmts']:
+            rv = st['rv']
+            if rv['k'] == 'agg' and rv.get('adt') == 'wire::Response' and rv.get('vname') == 'Content' and 'hash' in rv.get('fields', []):
+                sites.append((bi, rv['ops'][rv['fields'].index('hash')]))
+    if not sites:
+        ctx.undecided('C10.R6', 'handle_get: the Content reply is not built as a Response::Content aggregate in handle_get')
+        return
+    opens = {(o_b) for o_b, _ in fl.calls(lambda c: c.endswith('fs::File::open') or c.endswith('OpenOptions::open'))}
+    for bi, op in sites:
+        os_ = [o for o in fl.origins(op) if o.kind != 'comb']
+        fin = [o for o in os_ if o.kind == 'call' and str(o.key) == 'blake3::Hasher::finalize']
+        other = [o for o in os_ if o not in fin and not (o.kind == 'call' and str(o.key).split('::')[-1] in ('as_bytes', 'into', 'from', 'deref', 'clone'))
+                 and not (o.kind == 'agg' and str(o.key).startswith('std::'))]
+        # the hasher was fed from the opened handle
+        fed = False
+        for o in fin:
+            ho = {(x.kind, str(x.key), x.bb) for x in call_arg_origins(fl, o.bb, 0)}
+            for cb, ct in fl.calls(lambda c: c in ('std::io::copy', 'blake3::Hasher::update', 'blake3::Hasher::update_reader', 'std::io::Write::write_all')):
+                args_ = ct['args']
+                tgt = args_[1] if callee(ct) == 'std::io::copy' else args_[0]
+                if {(x.kind, str(x.key), x.bb) for x in fl.origins(tgt, mut_calls=True)} & ho:
+                    fed = True
+        ctx.check(bool(fin) and not other and fed, 'C10.R6', 'handle_get:announced-hash-is-of-this-handle',
+                  'Content.hash = finalize() of the hasher fed from the opened file',
+                  'handle_get can announce a hash that was not computed from the bytes it is about to send (other sources: %s): a digest remembered for the path '
+                  'describes whatever version was there when it was noted' % sorted({'%s:%s' % (o.kind, str(o.key)[:50]) for o in other})[:3], term_loc(wb, bi))
+
+
 def r6(ctx, F, hub):
     b = F.body('serve::handle_get')
     if b is None:
@@ -270,6 +307,7 @@ def r6(ctx, F, hub):
             for p in pos:
                 if p < len(t['args']) and hub.path_class(body, t['args'][p]) == 'live' and not hub.in_held_region(body):
                     accesses.append((body, bb, c))
+    ctx.attempt(get_announces_own_hash, ctx, F, b)
     ctx.check(len(accesses) <= 1, 'C10.R6', 'handle_get:single-handle', 'one path-based access of the live file',
               'handle_get reads the length, the hash and the content through %d separate path accesses outside the lock (%s): a concurrent commit between them '
               'makes the announced len/hash describe other bytes than those sent' % (len(accesses), [c.split('::')[-1] for _, _, c in accesses]),
